@@ -4,7 +4,7 @@
 //! `COUNT prop=<id> evaluated=<n> nontrivial=<n>` at the end.
 
 use crate::fmt::hex;
-use ppp::{v1, HeaderResult, PartialResult};
+use ppp::{v1, v2, HeaderResult, PartialResult};
 use std::panic::{catch_unwind, AssertUnwindSafe};
 use std::sync::atomic::{AtomicU64, Ordering};
 use std::sync::Mutex;
@@ -16,12 +16,12 @@ const TOKENS: [&[u8]; 18] = [
 const TRAILERS: [&[u8]; 6] = [b"X", b"\r\n", b"\n", b"0", b" ", b"PROXY UNKNOWN\r\n"];
 
 struct Stats {
-    evaluated: [AtomicU64; 5],
-    nontrivial: [AtomicU64; 5],
+    evaluated: [AtomicU64; 6],
+    nontrivial: [AtomicU64; 6],
     viol: Mutex<Vec<String>>,
 }
 
-const PROPS: [&str; 5] = ["C03", "C04", "C05", "C16", "C18"];
+const PROPS: [&str; 6] = ["C03", "C04", "C05", "C16", "C18", "C06"];
 
 fn report(st: &Stats, p: usize, input: &[u8], detail: &str) {
     let mut v = st.viol.lock().unwrap();
@@ -114,6 +114,49 @@ fn check(st: &Stats, x: &[u8]) {
         }
         if !agree {
             report(st, 3, x, "entry points disagree");
+        }
+    }
+
+    // C06: the auto-detected result is the composition of the two dedicated verdicts
+    {
+        st.evaluated[5].fetch_add(1, Ordering::Relaxed);
+        let r2 = v2::Header::try_from(x);
+        let c2 = match &r2 {
+            Ok(_) => Class::Ok,
+            Err(_) if r2.is_incomplete() => Class::Inc,
+            Err(_) => Class::Term,
+        };
+        let ra = HeaderResult::parse(x);
+        let (ca, is_v2) = match &ra {
+            HeaderResult::V1(r) => (class_b(r), false),
+            HeaderResult::V2(r) => (
+                match r {
+                    Ok(_) => Class::Ok,
+                    Err(_) if r.is_incomplete() => Class::Inc,
+                    Err(_) => Class::Term,
+                },
+                true,
+            ),
+        };
+        if c2 != cb {
+            st.nontrivial[5].fetch_add(1, Ordering::Relaxed);
+        }
+        let want_inc = c2 == Class::Inc || (c2 == Class::Term && cb == Class::Inc);
+        let mut bad = (c2 == Class::Ok && cb == Class::Ok)
+            || ((ca == Class::Ok) != (c2 == Class::Ok || cb == Class::Ok))
+            || ((ca == Class::Inc) != want_inc)
+            || (ra.is_incomplete() != want_inc)
+            || (ra.is_complete() == want_inc);
+        if ca == Class::Ok {
+            bad |= is_v2 != (c2 == Class::Ok);
+            bad |= match (&ra, &r2, &rb) {
+                (HeaderResult::V2(Ok(a)), Ok(b), _) => a != b,
+                (HeaderResult::V1(Ok(a)), _, Ok(b)) => a != b,
+                _ => true,
+            };
+        }
+        if bad {
+            report(st, 5, x, "auto-detection is not the composition of the dedicated verdicts");
         }
     }
 
@@ -227,6 +270,51 @@ pub fn main(args: &[String]) {
                 );
             }
         }
+        Some("bytes3") => {
+            // every byte string of at most `k` bytes (k = 3: 16 843 009 inputs)
+            let k: usize = args.get(1).and_then(|s| s.parse().ok()).unwrap_or(3);
+            let st = Stats {
+                evaluated: Default::default(),
+                nontrivial: Default::default(),
+                viol: Mutex::new(Vec::new()),
+            };
+            check(&st, b"");
+            fn all(st: &Stats, buf: &mut Vec<u8>, depth: usize) {
+                check(st, buf);
+                if depth == 0 {
+                    return;
+                }
+                for b in 0..=255u8 {
+                    buf.push(b);
+                    all(st, buf, depth - 1);
+                    buf.pop();
+                }
+            }
+            std::thread::scope(|s| {
+                for chunk in 0..16u16 {
+                    let st = &st;
+                    s.spawn(move || {
+                        if k >= 1 {
+                            for b in (chunk * 16)..(chunk * 16 + 16) {
+                                let mut buf = vec![b as u8];
+                                all(st, &mut buf, k - 1);
+                            }
+                        }
+                    });
+                }
+            });
+            for l in st.viol.lock().unwrap().iter() {
+                println!("{}", l);
+            }
+            for (i, p) in PROPS.iter().enumerate() {
+                println!(
+                    "COUNT prop={} evaluated={} nontrivial={}",
+                    p,
+                    st.evaluated[i].load(Ordering::Relaxed),
+                    st.nontrivial[i].load(Ordering::Relaxed)
+                );
+            }
+        }
         Some("v1lines") => {
             // near-valid full lines: every combination of field alternatives, separators and endings
             let level: usize = args.get(1).and_then(|s| s.parse().ok()).unwrap_or(1);
@@ -298,7 +386,7 @@ pub fn main(args: &[String]) {
             }
         }
         _ => {
-            eprintln!("usage: pppharness sweep v1tokens <k> | v1lines <level>");
+            eprintln!("usage: pppharness sweep v1tokens <k> | v1lines <level> | bytes3 <k>");
             std::process::exit(2);
         }
     }
